@@ -19,26 +19,10 @@ func (c *ChoquetIntegralBiasListener) OnCriterionAdded(
 	params model.MethodParameters,
 	generator utils.ValueGenerator,
 ) model.AddedCriterionParams {
-	parsedParams := params.(choquetParams)
-	oldWeights := parsedParams.weights
-	newCriteria := parsedParams.criteria.Add(criterion)
-	newWeightsKeys := PowerSet(*newCriteria.Names())
-	newWeights := make(model.Weights, len(*newWeightsKeys))
-	for _, k := range *newWeightsKeys {
-		cKey := criterionKey(&k)
-		weight, ok := (*oldWeights)[cKey]
-		if ok {
-			newWeights[cKey] = weight
-			continue
-		}
-		originalKeyCriteriaWithoutNewOne := utils.RemoveSingleStringOccurrence(k, criterion.Id)
-		if len(originalKeyCriteriaWithoutNewOne) == 0 {
-			newWeights[criterion.Id] = generator()
-			continue
-		}
-		newWeights[cKey] = getWeightForCriteriaUnion(&originalKeyCriteriaWithoutNewOne, oldWeights)
-	}
-	return choquetParams{weights: &newWeights, criteria: &newCriteria}
+	// only the weight of the new criterion alone is drawn here; the weights of its unions
+	// with the other criteria are derived in Merge from the parameters it is merged into
+	newWeights := model.Weights{criterion.Id: generator()}
+	return choquetParams{weights: &newWeights, criteria: &model.Criteria{*criterion}}
 }
 
 func (c *ChoquetIntegralBiasListener) OnCriteriaRemoved(
@@ -87,6 +71,14 @@ func (c *ChoquetIntegralBiasListener) Merge(params model.MethodParameters, addit
 	oldParams := params.(choquetParams)
 	newParams := addition.(choquetParams)
 	resultWeights := oldParams.weights.Merge(newParams.weights)
-	resultCriteria := append(*oldParams.criteria, *newParams.criteria...)
+	resultCriteria := *oldParams.criteria.ShallowCopy()
+	for _, added := range *newParams.criteria {
+		// a union with the new criterion weighs as much as the same union without it
+		for key, weight := range *oldParams.weights {
+			union := append(containedCriteria(key), added.Id)
+			(*resultWeights)[criterionKey(&union)] = weight
+		}
+		resultCriteria = resultCriteria.Add(&added)
+	}
 	return choquetParams{weights: resultWeights, criteria: &resultCriteria}
 }
